@@ -1,10 +1,15 @@
 #!/bin/bash
 # Re-runs the monitors against every kept seeded change (scratch worktrees only) and prints one
-# line per change. Usage: tools/sweep_seeded.sh [ids...]
+# line per change (plus one sample signature). Usage: tools/sweep_seeded.sh [ids...]
+# A change whose own property's check is not the one that catches it names the catching check in
+# meta.json ("sweep_with").
 cd "$(dirname "$0")/.."
 crate_of() { case $1 in C01|C02|C03|C19) echo lrv-codec;; C13) echo lrv-phyref;; C14|C18) echo lrv-chip;; C15|C16|C17) echo lrv-phy;; *) echo lrv-mac;; esac; }
 ids=${@:-$(ls seeded)}
 for id in $ids; do
   p=${id:0:3}
-  MUT_SHOW=1 tools/mutant.sh s-$id $(crate_of $p) "$p" /verif/seeded/$id/patch.diff 2>&1 | grep "^MUTANT" | cut -c1-200
+  crate=$(crate_of $p); props=$p
+  sw=$(python3 -c "import json,sys;j=json.load(open('seeded/$id/meta.json')).get('sweep_with');print(j['crate'],j['props']) if j else None" 2>/dev/null)
+  if [ -n "$sw" ] && [ "$sw" != "None" ]; then crate=${sw%% *}; props=${sw#* }; fi
+  MUT_SHOW=1 tools/mutant.sh s-$id $crate "$props" /verif/seeded/$id/patch.diff 2>&1 | grep -E "^MUTANT|^    C[0-9]" | cut -c1-220
 done
